@@ -91,7 +91,8 @@ def analyse(repo: Repo) -> ScanInfo:
         if t[0] != "tuple" or len(t[1]) != 2:
             info.problems.append(f"`parse` returns `{show(t, 80)}`, not a pair (module names, parsed modules)")
             continue
-        firsts.add(_through_wrappers(t[1][0]))
+        first = _through_wrappers(t[1][0])
+        firsts.add(ident(first) if first[0] == "box" else first)  # the same container, whatever it holds at the time of the return
     if len(firsts) != 1:
         info.problems.append("the returned collection of module names is not a single object")
         return info
@@ -346,6 +347,59 @@ def _name_truthiness_atoms(sx: SymX, f: Formula, reg: Reg) -> set[str]:
     return out
 
 
+def _character_prefix_skip(info: ScanInfo):
+    """(event, test, why) for a registration / descent / read that only happens if the *text* of the visited path does not start with
+    the text of another directory (no separator appended): descendants are recognised by characters instead of by path components."""
+    sx = info.sx
+    cands = [r.event for r in info.regs] + list(info.descents) + list(info.reads)
+    for e in cands:
+        for key in sorted(atoms_of(f_and(e.pc))):
+            t = sx.atoms.get(key)
+            if t is None or t[0] != "mcall" or t[2] != "startswith" or len(t[3]) != 1:
+                continue
+            subject, other = t[1], t[3][0]
+            # the subject is the text of a path: str(p) / os.fspath(p) / a directory name handed out by os.walk
+            is_text = subject[0] == "call" and subject[1] in (("builtin", "str"), ("lib", "os.fspath")) or any(x[0] == "call" and x[1] == ("lib", "os.walk") for x in subterms(subject))
+            if not is_text:
+                continue
+            if not implies(f_and(e.pc), f_not(atom(key))):
+                continue  # the event does not depend on the test being false
+            texts = _accumulated(info, other)
+            if texts is None or not texts:
+                continue
+            if all(_is_bare_path_text(x) for x in texts):
+                return e, t, "the other texts are paths of directories as they are, without a trailing separator"
+    return None
+
+
+def _accumulated(info: ScanInfo, coll: Term) -> "list[Term] | None":
+    """The elements a tuple / str that is compared against may hold: a display, one text, or what `name += (..,)` adds to a rebound name."""
+    c = unbox(coll)
+    if c[0] in ("tuple", "list"):
+        return [x for x in c[1] if x[0] != "star"] if not any(x[0] == "star" for x in c[1]) else None
+    if c[0] == "loopvar":
+        out: list[Term] = []
+        for e in info.trace.events:
+            if e.kind == "aug" and e.name == c[1]:
+                v = unbox(e.args[0])
+                if v[0] not in ("tuple", "list") or any(x[0] == "star" for x in v[1]):
+                    return None
+                out += list(v[1])
+        return out
+    if c[0] in ("call", "mcall", "elem", "idx", "fstr", "binop"):
+        return [c]
+    return None
+
+
+def _is_bare_path_text(x: Term) -> bool:
+    """`str(p)` / a directory name of os.walk, with nothing appended."""
+    if x[0] == "call" and x[1] in (("builtin", "str"), ("lib", "os.fspath")) and len(x[2]) == 1:
+        return True
+    if x[0] in ("idx", "elem") and any(y[0] == "call" and y[1] == ("lib", "os.walk") for y in subterms(x)):
+        return True
+    return False
+
+
 # --------------------------------------------------------------------------- the rule
 
 
@@ -358,6 +412,16 @@ def run_registration(repo: Repo, res: Result, rule: str) -> int:
     delegated = [e for e in info.trace.events if e.kind == "call" and (e.func[0] == "lib" and e.func[1] in ("os.walk", "os.fwalk", "glob.glob", "glob.iglob") or e.name in ("rglob", "walk") and e.func[0] == "method")]
     if delegated:
         e = delegated[0]
+        hit = _character_prefix_skip(info)
+        if hit is not None:
+            ev, atom_t, why = hit
+            res.add(rule, repo.key(ev.fi, stmt_of(ev.node)) + " [paths compared by character prefix]", False, f"a path is skipped when `{show(atom_t, 100)}`: {why}; the text of a path also starts with the text of a sibling whose name is a prefix of its own (`pkg/tests_helpers` is skipped because `pkg/tests` was excluded)", where(ev.fi, ev.node), kind="decision-table")
+            return 0
+        if e.func == ("lib", "os.walk"):
+            follow = next((v for k, v in e.kwargs if k == "followlinks"), e.args[3] if len(e.args) > 3 else None)
+            if follow is None or follow == ("const", False):
+                res.add(rule, repo.key(e.fi, stmt_of(e.node)) + " [walk follows links]", False, "`os.walk` does not descend into directories that are symbolic links unless `followlinks=True`: a linked package directory and everything below it is no longer scanned (a directory is whatever `is_dir()` says, which follows links)", where(e.fi, e.node), kind="structural")
+                return 0
         res.undecide(rule, repo.key(e.fi, stmt_of(e.node)) + " [walk]", f"the directory walk is delegated to `{show(e.result, 60) if e.result else e.name}`: which directories are entered and which entries are skipped is decided inside the library", where(e.fi, e.node))
         return 0
     if info.problems and not info.regs:
